@@ -273,7 +273,8 @@ where
                         let ents = world.entities();
                         let st = rd::<T>(world);
                         let r = st.restrict();
-                        (&ents, &r).join().map(|(e, it)| json!([e.id(), it.get().js(), false, -2])).collect()
+                        // (5th element: the item's own entity looked up through the item)
+                        (&ents, &r).join().map(|(e, it)| json!([e.id(), it.get().js(), false, -2, optjs(it.get_other(e))])).collect()
                     }
                     "read_lend" => {
                         let ents = world.entities();
@@ -282,7 +283,7 @@ where
                         let mut out = vec![];
                         let mut j = (&ents, &r).lend_join();
                         while let Some((e, it)) = j.next() {
-                            out.push(json!([e.id(), it.get().js(), false, -2]));
+                            out.push(json!([e.id(), it.get().js(), false, -2, optjs(it.get_other(e))]));
                         }
                         out
                     }
@@ -292,7 +293,7 @@ where
                         let r = st.restrict();
                         let out = std::sync::Mutex::new(vec![]);
                         (&ents, &r).par_join().for_each(|(e, it)| {
-                            out.lock().unwrap().push((e.id(), json!([e.id(), it.get().js(), false, -2])));
+                            out.lock().unwrap().push((e.id(), json!([e.id(), it.get().js(), false, -2, optjs(it.get_other(e))])));
                         });
                         let mut o = out.into_inner().unwrap();
                         o.sort_by_key(|x| x.0);
@@ -307,6 +308,7 @@ where
                         let mut j = 0;
                         while let Some((e, mut item)) = it.next() {
                             let read = item.get().js();
+                            let own = optjs(item.get_other(e));
                             let wv = sel(j);
                             if wv >= -1 {
                                 let mut a = item.get_mut();
@@ -314,7 +316,7 @@ where
                                     a.access_mut().set_val(wv as u32);
                                 }
                             }
-                            out.push(json!([e.id(), read, wv >= -1, wv]));
+                            out.push(json!([e.id(), read, wv >= -1, wv, own]));
                             j += 1;
                         }
                         out
